@@ -6,6 +6,7 @@ import (
 	"pgregory.net/rapid"
 	"verif/harness/asam"
 	"verif/harness/evid"
+	"verif/harness/iosm"
 )
 
 const ruleC16 = "generated inputs with ties forced on (several identical groups on the device, equally good matches); each case is run 8 times in-process on byte-identical files (Go randomises map iteration per range); " +
@@ -18,6 +19,14 @@ func TestC16(t *testing.T) {
 		rapid.Check(t, func(rt *rapid.T) {
 			p := asam.GenPair(rt, asam.GenOpts{Ties: true})
 			c := asaCase("C16", p)
+			c.Params["ties"] = "1"
+			judge(rt, ev, oracleC16, c, func() any { return c })
+		})
+	})
+	t.Run("ios", func(t *testing.T) {
+		rapid.Check(t, func(rt *rapid.T) {
+			p := iosm.GenPair(rt, iosm.GenOpts{Ties: true})
+			c := iosCase("C16", p)
 			c.Params["ties"] = "1"
 			judge(rt, ev, oracleC16, c, func() any { return c })
 		})
